@@ -246,6 +246,22 @@ def discharge_assert(an, body, t, blk=None):
                 good = ff
             if good is not None and body.edge_dominates((sb, good), blk):
                 return True, "subtraction guarded by the comparison at %s (minuend >= subtrahend on this path)" % body.line(sb)
+        # `N - s.len()` on the None edge of `s.split_first_chunk::<N>()` / `s.first_chunk::<N>()`: None means len < N
+        for sb in sorted(body.live_blocks()):
+            st = body.term(sb)
+            if st["k"] != "switch":
+                continue
+            se = peel(an.op(body, st["op"]))
+            if se[0] != "discr":
+                continue
+            call = peel(se[1])
+            if call[0] == "call" and call[2] is not None and re.search(r"<impl \[T\]>::(split_first_chunk|first_chunk|split_last_chunk|last_chunk)$", call[2].npath) and len(call[2].args or []) >= 2:
+                nconst = "const(%s)" % call[2].args[1]
+                slice_len = "core::slice::<impl [%s]>::len(%s)" % (call[2].args[0], canon(peel(call[3][0])))
+                none_t = [tb for v, tb in st["targets"] if v == 0] or [st["otherwise"]]
+                if ca_.split("@")[0] in (nconst, str(call[2].args[1]) + "_usize") and cb_.split("@")[0].startswith("core::slice::<impl [") and canon(peel(an.op(body, t["ops"][1]), widen=True)).split("(", 1)[1].rsplit(")", 1)[0].lstrip("&*") == canon(peel(call[3][0])).lstrip("&*") \
+                        and body.edge_dominates((sb, none_t[0]), blk):
+                    return True, "subtraction on the None edge of %s::<%s>() at %s: the slice is shorter than %s there" % (call[2].npath.rsplit("::", 1)[1], call[2].args[1], body.line(sb), call[2].args[1])
     ops = [canon(peel(an.op(body, o)))[:120] for o in t["ops"]]
     return False, "%s not discharged: operand(s) %s are not compile-time constants in a safe range" % (kind, ops)
 
